@@ -181,6 +181,9 @@ func modelV2(d gen.S) gen.S {
 					descr(b, pm)
 					o["body"] = b
 				case "formData":
+					if _, dup := form[name]; dup {
+						o["duplicate parameters"] = append(asArr(o["duplicate parameters"]), "formData:"+name)
+					}
 					f := pick(pm, c17Constraint)
 					if f["type"] == "file" {
 						f["type"], f["format"] = "string", "binary"
@@ -197,6 +200,9 @@ func modelV2(d gen.S) gen.S {
 						e["required"] = true
 					}
 					descr(e, pm)
+					if _, dup := params[fmt.Sprint(pm["in"])+":"+name]; dup {
+						o["duplicate parameters"] = append(asArr(o["duplicate parameters"]), fmt.Sprint(pm["in"])+":"+name)
+					}
 					params[fmt.Sprint(pm["in"])+":"+name] = e
 				}
 			}
@@ -803,6 +809,10 @@ func c17Cases() []c17case {
 			d["consumes"] = gen.Arr("text/plain")
 			dig(d, "paths")["/cd"] = gen.S{"post": gen.S{"operationId": "cd", "parameters": gen.Arr(gen.S{"name": "body", "in": "body", "schema": gen.S{"type": "string", "minLength": 2.0}}), "responses": okResp()}}
 		}},
+		{"consumes-both-form-encodings", func(d gen.S) {
+			dig(d, "paths")["/cf"] = gen.S{"post": gen.S{"operationId": "cf", "consumes": gen.Arr("application/x-www-form-urlencoded", "multipart/form-data"),
+				"parameters": gen.Arr(gen.S{"name": "a", "in": "formData", "type": "string", "required": true}, gen.S{"name": "n", "in": "formData", "type": "integer", "maximum": 5.0}), "responses": okResp()}}
+		}},
 		{"consumes-two-types", func(d gen.S) {
 			dig(d, "paths")["/c2"] = gen.S{"put": gen.S{"operationId": "c2", "consumes": gen.Arr("application/xml", "application/json"), "parameters": gen.Arr(gen.S{"name": "body", "in": "body", "schema": gen.S{"$ref": "#/definitions/Pet"}}), "responses": okResp()}}
 		}},
@@ -1219,7 +1229,7 @@ type c17Witness struct {
 func init() {
 	core.Register(&core.Check{
 		ID:   "C17",
-		Rule: "documents: one-hot per (position, field): every constraint field of non-body parameters in query/header/path, of form parameters, of shared (#/parameters) parameters and of response headers; every schema field (incl. x-nullable, discriminator, $ref in items/properties/additionalProperties/allOf) at 8 positions (definition, nested property, items, additionalProperties, allOf member, body schema, response schema, shared response schema); file upload; servers (host/basePath/schemes variants); the five security definition kinds; operation security; path-level parameters; several methods; coded and default responses; plus PRNG-drawn combinations of these. For each valid convertible v2 document: ToV3 (3 times: the model must not depend on map iteration order), Validate(v3), model(v2) = model(v3); FromV3 and model(v2') = model(v2); every $ref in v2' is a v2 location. Distinct = (position, field); non-trivial = the document has at least one constraint or reference.",
+		Rule: "documents: one-hot per (position, field): every constraint field of non-body parameters in query/header/path, of form parameters, of shared (#/parameters) parameters and of response headers; every schema field (incl. x-nullable, discriminator, $ref in items/properties/additionalProperties/allOf) at 8 positions (definition, nested property, items, additionalProperties, allOf member, body schema, response schema, shared response schema); file upload; servers (host/basePath/schemes variants); the five security definition kinds; operation security; path-level parameters; several methods; coded and default responses; plus PRNG-drawn combinations of these. For each valid convertible v2 document: ToV3 (two fresh parses and two more conversions of the same in-memory document: the model may depend neither on map iteration order nor on earlier conversions, and ToV3 must leave its input unchanged; FromV3 is run twice on the same document as well), Validate(v3), model(v2) = model(v3); FromV3 and model(v2') = model(v2); every $ref in v2' is a v2 location. Distinct = (position, field); non-trivial = the document has at least one constraint or reference.",
 		Assumptions: []string{
 			"the two model extractors (written against the Swagger 2.0 and OpenAPI 3.0.3 texts, over raw JSON) are correct",
 			"consumes/produces media types are not part of the compared model (only form vs body and the schemas)",
@@ -1230,6 +1240,12 @@ func init() {
 			return map[string]int{"outcomes/converted": 900, "model-content/form fields": 200, "model-content/bodies": 100, "model-content/response headers": 100, "model-content/definitions": 1000, "positions/random-document": 300}
 		},
 	})
+}
+
+func toSBytes(b []byte) gen.S {
+	var m gen.S
+	json.Unmarshal(b, &m)
+	return m
 }
 
 func toS(v any) gen.S {
@@ -1325,13 +1341,22 @@ func c17One(c *core.Ctx, cs c17case) {
 	var first gen.S
 	var v3JSON []byte
 	var doc3 *openapi3.T
-	for rep := 0; rep < 3; rep++ {
-		var d2 openapi2.T
-		json.Unmarshal(in, &d2)
+	// two fresh parses and two more conversions of the second parse: the result may depend neither on map iteration
+	// order nor on the document having been converted before (ToV3 must leave the caller's document alone)
+	var kept openapi2.T
+	json.Unmarshal(in, &kept)
+	keptBefore, _ := json.Marshal(&kept)
+	for rep := 0; rep < 4; rep++ {
+		var fresh openapi2.T
+		d2 := &kept
+		if rep == 0 {
+			json.Unmarshal(in, &fresh)
+			d2 = &fresh
+		}
 		var d3 *openapi3.T
 		var err error
 		c.Eval()
-		if pi := core.Guard(func() { d3, err = openapi2conv.ToV3(&d2) }); pi != nil {
+		if pi := core.Guard(func() { d3, err = openapi2conv.ToV3(d2) }); pi != nil {
 			f := core.PanicFeatures(pi)
 			f["stage"] = "ToV3"
 			c.Violate(f, mkW("ToV3", nil, nil, "", ""), desc+"\n"+pi.Value+"\n"+core.Truncate(pi.Stack, 2500))
@@ -1350,6 +1375,12 @@ func c17One(c *core.Ctx, cs c17case) {
 			c.Violate(map[string]string{"kind": "ToV3_nondeterministic", "position": cs.position, "field": c17Field(cs)}, mkW("ToV3", b, nil, ptr, cls), desc+"\ntwo conversions of the same document describe different APIs at "+ptr)
 			return
 		}
+	}
+	// (ToV3 writing into its input - it adds x-formData-name to form parameters - is recorded, not judged: the statement is
+	// about the API the documents describe, and that is compared across the repeated conversions above)
+	if keptAfter, _ := json.Marshal(&kept); gen.Canon(toSBytes(keptAfter)) != gen.Canon(toSBytes(keptBefore)) {
+		ptr, _ := firstDiff(toSBytes(keptBefore), toSBytes(keptAfter), "")
+		c.Cover("input_modified_by_ToV3", c17At(ptr))
 	}
 	if os.Getenv("VERIF_C17_DUMP") == cs.field {
 		fmt.Fprintf(os.Stderr, "DUMP %s\nmodel(v2)=%s\nmodel(v3)=%s\nv3=%s\n", desc, gen.Canon(want), gen.Canon(first), v3JSON)
@@ -1382,6 +1413,16 @@ func c17One(c *core.Ctx, cs c17case) {
 	backJSON, _ := json.Marshal(back)
 	backTree := toS(back)
 	got := modelV2(backTree)
+	// converting the same OpenAPI 3 document back once more gives the same API again
+	var back2 *openapi2.T
+	c.Eval()
+	if pi := core.Guard(func() { back2, err = openapi2conv.FromV3(doc3) }); pi == nil && err == nil {
+		if ptr, cls := firstDiff(got, modelV2(toS(back2)), ""); ptr != "" {
+			b2, _ := json.Marshal(back2)
+			c.Violate(map[string]string{"kind": "FromV3_result_depends_on_earlier_conversion", "position": cs.position, "field": c17Field(cs), "class": cls, "at": c17At(ptr)}, mkW("FromV3", v3JSON, b2, ptr, cls),
+				fmt.Sprintf("%s\nFromV3 of the same OpenAPI 3 document a second time differs from the first at %s (%s)", desc, ptr, cls))
+		}
+	}
 	if ptr, cls := firstDiff(want, got, ""); ptr != "" {
 		c.Violate(map[string]string{"kind": "round_trip_describes_other_api", "position": cs.position, "field": c17Field(cs), "class": cls, "at": c17At(ptr)}, mkW("FromV3", v3JSON, backJSON, ptr, cls),
 			fmt.Sprintf("%s\nmodel(v2) != model(FromV3(ToV3(v2))) at %s (%s)\nv2:  %s\nv2': %s", desc, ptr, cls, core.Truncate(string(in), 700), core.Truncate(string(backJSON), 900)))
